@@ -1,66 +1,180 @@
 """C12 - registry edits take effect everywhere, immediately, regardless of history (bounded model checking)."""
+import copy
 import itertools
 
-from .common import And, Case, call, check_names, close, exact_eq, payload
+import z3
+
+from symx.core import SymReal, lift
+
+from .common import PREFIX, And, Case, call, check_names, exact_eq, payload
+from .common import close as band_close
 from .registry_common import (BAR, FOO, NAMES, Log, Model, Probe, describe, dims_equal, mc_stats, merge_mc, obs_value, probes,
-                              req, resolution_ok, sel, state_id)
+                              req, state_id)
 
 LEVEL = "model_checking"
 MANIFEST = dict(
     category="model_checking",
     text=("Bounded model checking with the real code as transition function: every history of registry operations up to the "
-          "bound (add / re-add / modify by float / modify by quantity / remove / define_unit interleaved with unit "
-          "construction from atomic, prefixed and compound strings, array creation, conversion, multiplication) is executed "
-          "on the real UnitRegistry / Unit / unyt_array code with every scale a fresh z3 real; after the history (hence after "
-          "every prefix, the set of histories being prefix-closed) and, in a second family, after every single step, each "
-          "probe string is resolved against the live registry and z3 decides whether its scale term and dimensions equal those "
-          "of a 15-line reference model (itself checked, state by state, against a cold registry built by the real code from the "
-          "model's contents); units made earlier must keep their term. Histories are enumerated (discrete), scales and payloads are solved for."),
+          "bound (add / re-add / modify by float / modify by quantity / remove / define_unit - of an existing symbol, of a NEW "
+          "unrelated symbol and of a NEW symbol spelled like an SI-prefixed form of an existing one - interleaved with unit "
+          "construction from atomic, prefixed and compound strings, array creation, conversion, multiplication, with the other "
+          "ways of asking a registry (reg[...], `in`, products/quotients through Unit.simplify, LaTeX of a compound, keys / "
+          "prefixable_units / list_same_dimensions, unit_system_id) and with re-use of units and quantities made earlier (every "
+          "copy route, arithmetic)) is executed on the real UnitRegistry / Unit / unyt_array code with every scale a fresh z3 real; "
+          "after the history (hence after every prefix, the set of histories being prefix-closed) and, in further families, after "
+          "every single step, each probe string is resolved against the live registry and z3 decides whether its scale term and "
+          "dimensions equal those of a 20-line reference model (itself checked, state by state, against a cold registry built by the "
+          "real code from the model's contents); the rows the registry lists must be implied by the model; units made earlier and "
+          "their copies must keep their term. Histories are enumerated (discrete), scales and payloads are solved for."),
     design="DESIGN.md section 4 C12",
     technique="explicit-state bounded model checking over operation histories, symbolic (z3 real) data, reference-model refinement check per state; counterexample replay on plain unyt")
 EXPLANATION = (
-    "Transition function = the real UnitRegistry.add/modify/remove, define_unit, Unit.__new__ (+ _unit_object_cache), "
-    "_lookup_unit_symbol (+ its write-back into the table), unit_system_id/Unit.__hash__, the lru-cached unit rules and "
-    "_check_em_conversion, unyt_array creation/to()/multiplication. Caches are cleared only at the start of a path, one path = "
-    "one history, so all memo layers are live inside a history. Specification = harness.registry_common.Model "
-    "(symbol -> scale term, dims, offset, prefixable) and its evaluator for the probe strings "
-    "{xfoo, kxfoo, mxfoo, xbar, xfoo*xbar, kxfoo**2/xbar, xfoo/xfoo}. Obligations per observed state: base_value term == "
-    "model term (1e-6 band) and dimensions equal, or 'unknown symbol' exactly when the model says so; the model's answer == the real code's answer on a cold "
-    "registry holding the model's rows (validation of the specification); outcome (exception class) of every operation as documented; units created earlier "
-    "keep the term they had. z3 decides each obligation for all positive scales / all payloads at once; a stale cache "
-    "shows as a term that still mentions an old symbol."
+    "Transition function = the real UnitRegistry.add/modify/remove/__getitem__/__contains__/keys/prefixable_units/"
+    "list_same_dimensions/unit_system_id, define_unit, Unit.__new__ (+ _unit_object_cache), Unit.copy/__deepcopy__/simplify/"
+    "latex_repr, _lookup_unit_symbol, Unit.__hash__, the cached unit rules (_multiply_units/_divide_units) and "
+    "_check_em_conversion, unyt_array creation/to()/multiplication/division/copy. Caches are cleared only at the start of a path, "
+    "one path = one history, so all memo layers are live inside a history. Specification = Model12 (harness.registry_common.Model "
+    "+ the documented lookup order: the whole string as a symbol first, then SI prefix + prefixable symbol) and its evaluator for "
+    "the probe strings {xfoo, kxfoo, mxfoo, xbar, xfoo*xbar, kxfoo**2/xbar, xfoo/xfoo} (+ {xnew, kxnew, xnew*xbar} in the families "
+    "that add symbols). Obligations per observed state: base_value term == model term (1e-6 band) and dimensions equal, or "
+    "'unknown symbol' exactly when the model says so; every non-default row the registry lists (keys()) is a model symbol with "
+    "its current term or prefix + prefixable model symbol with prefix * CURRENT term, and no model symbol is missing; the model's "
+    "answer == the real code's answer on a cold registry holding the model's rows (validation of the specification); outcome "
+    "(exception class) of every operation as documented (modify/remove know table rows only, define_unit refuses every spelling "
+    "that resolves); reg[s] / s in reg / the listings answer from the current contents; unit_system_id == the id of a fresh "
+    "registry holding the same table; units created earlier keep the term they had, every copy of them (Unit.copy shallow/deep, "
+    "copy.copy, copy.deepcopy, array .copy(), .units.copy()) has that old term with the string memo cold and warm, and the same "
+    "strings requested right after the copies have the current term; arithmetic with old units carries their old term. z3 decides "
+    "each obligation for all positive scales / all payloads at once; a stale memo shows as a term that still mentions an old symbol."
 )
 BOUNDS = {
-    "quick": "2 symbols (xfoo prefixable, xbar not) on top of the default table; 12-operation alphabet; ALL histories of length <= 3 "
-             "observed at their end (1885 = prefix-closed, so every prefix is observed too) + ALL edit-only histories (6 edit ops) of "
-             "length <= 3 (259) with a full probe round after every step; 7 probe strings + the kxfoo/xfoo conversion factor; "
-             "scales/values symbolic; histories are grouped into cases by their first operation",
-    "thorough": "same alphabet; ALL histories of length <= 4 observed at their end (22621) + ALL edit-only histories of length <= 4 "
-                "with a probe round after every step (1555)",
+    "quick": "4 symbols on top of the default table: xfoo (prefixable), xbar present at the start; kxfoo (stand-alone symbol that shadows "
+             "kilo-xfoo) and xnew (prefixable) absent at the start. Five families, ALL histories of length <= 3 over each alphabet "
+             "(12139 histories; prefix-closed, so every prefix is observed too), grouped into cases by their first operation (the first two in the widest families): "
+             "end = 20 operations (6 edits of xfoo/xbar, 6 constructions/uses, 6 ways of asking the registry, copies of / arithmetic "
+             "with earlier units): 8421; every = 6 edit ops with a full probe round after every step: 259; shadow = 13 operations "
+             "(add/modify/remove/define_unit of kxfoo, add/modify/remove of xfoo, construction/array/conversion of kxfoo strings, "
+             "reg[...]/in/product): 2380; shadow-every = 6 edits of kxfoo and xfoo with a probe round after every step: 259; "
+             "fresh = 9 operations around the new symbol xnew (add/modify/remove/define_unit, construction of xnew, kxnew, "
+             "xnew*xbar before and after, asks, remove of xfoo): 820. 7 (10 in the last three families) probe strings + the "
+             "kxfoo/xfoo conversion factor + the listed-rows check per observed state; scales/values symbolic",
+    "thorough": "the quick families (end, shadow, shadow-every, fresh to length 3; every to length 4: 1555) + deep = the 12 round-1 "
+                "operations to length 4 (22621) + ask-deep = 6 edits + 6 asks + copies to length 4 (30941) + shadow-deep = 10 "
+                "operations (shadow without define_unit / array creation / conversion) to length 4 (11111): 78108 histories",
 }
-OUTSIDE = ("histories longer than the bound; more than two user symbols; offsets (always 0 here; C03/C08 treat offsets); unit-system "
-           "objects created from an edited registry (C10); IEEE rounding (A1); concurrent use")
+OUTSIDE = ("histories longer than the bound; more than two user symbols present at the start and two added later; prefixes other "
+           "than k / m / M in the shadowing and asking operations; stand-alone symbols spelled like a prefixed form that are "
+           "themselves prefixable; offsets (always 0 here; C03/C08 treat offsets); unit-system objects created from an edited "
+           "registry (C10); to_json / pickle / copies of the registry itself (C11/C13); quotients whose factors cancel with "
+           "symbolic scales (kxfoo/xfoo through Unit.simplify needs concrete scales: covered only through "
+           "get_conversion_factor); arithmetic of an old unit whose symbol has been removed may be refused "
+           "(SymbolNotFoundError is accepted there); IEEE rounding (A1); concurrent use")
 
 ASSUMPTIONS = [
     "C12: the operation taken at step i is decoded from an auxiliary real symbol op_i (interval decoding); the explorer thereby enumerates all histories, one path each; the symbols have no meaning for unyt",
-    "C12: obligations whose two sides z3's rewriter normalises to the same polynomial are counted as ground checks; the solver proper decides the quotient obligations (kxfoo/xfoo factor), path feasibility (Unit.__eq__ forks) and every obligation whose sides differ",
+    "C12: obligations whose two sides z3's rewriter normalises to the same polynomial are counted as ground checks; the solver proper decides the quotient obligations (kxfoo/xfoo factor, quantity quotients), path feasibility (Unit.__eq__ forks) and every obligation whose sides differ",
     "C12: Unit.__hash__ hashes the repr of the table, so lru-cache hits between units of equal value but different symbolic name are not explored (such hits return a unit within unyt's own 1e-9 equality band, inside the 1e-6 band of the obligations)",
+    "C12: the listing methods return lists of names: their obligations are discrete comparisons on every explored path (replayed like the others); unit_system_id is a digest: a memoised id that differs from the fresh one is identified among the digests of the earlier tables of the history and the solver decides whether that table can differ from the current one",
 ]
 OPS = ["add_foo", "mod_foo_f", "mod_foo_q", "rm_foo", "def_foo", "mod_bar_f", "mk_atom", "mk_pref", "mk_comp", "arr_create",
        "convert", "arith"]
 EDITS = OPS[:6]
+# symbols that do not exist at the start of a history: KFOO is spelled like the kilo-form of FOO (a stand-alone symbol of that
+# spelling SHADOWS the prefix parse: the table gives the whole symbol priority), NEW is unrelated and prefixable
+KFOO, NEW = "k" + FOO, "xnew"
+# the registry is asked by other means than Unit(string): reg[...], `in`, products/quotients (Unit.simplify ->
+# _create_unit_from_factor -> registry[...]), LaTeX of a compound, the listing methods, the memoised unit_system_id
+ASKS = ["ask_item", "ask_in", "ask_prod", "ask_latex", "ask_lists", "ask_sysid"]
+# units / quantities made earlier in the history are used again: copied (every copy route), multiplied, raised to a power
+OLDS = ["old_copy", "old_arith"]
+WIDE = OPS + ASKS + OLDS
+SHADOW_EDITS = ["add_kfoo", "mod_kfoo_f", "rm_kfoo", "def_kfoo"]
+SHADOW = SHADOW_EDITS + ["add_foo", "mod_foo_f", "rm_foo", "mk_pref", "arr_create", "convert", "ask_item", "ask_in", "ask_prod"]
+SHADOW_EVERY = SHADOW_EDITS[:3] + ["add_foo", "mod_foo_f", "rm_foo"]
+FRESH = ["add_new", "mod_new_f", "rm_new", "def_new", "mk_new", "mk_knew", "mk_cnew", "ask_new", "rm_foo"]
 
-PROBES = probes()
-PK = {p.kind: p for p in PROBES}
-ARITH = Probe("arith", FOO, [("", FOO, 1), ("", BAR, 1)])
-KRATIO = Probe("k-per-atom", FOO, [], text=[("k", FOO, 1), ("", FOO, -1)])
+
+def sel(ctx, name, n):  # registry_common.sel (same decoding k <= o < k+1) with a bisection: log2(n) forks per step
+    o = ctx.real(name, lo=0, hi=n)
+    lo, hi = 0, n
+    while hi - lo > 1:
+        mid = (lo + hi) // 2
+        if o < mid:
+            hi = mid
+        else:
+            lo = mid
+    return lo
+
+
+def close(a, b):
+    """the 1e-6 band of harness.common.close. Two terms whose difference z3's rewriter normalises to the numeral 0 are equal
+    for all values (ASSUMPTIONS: counted as ground checks); the band formula is built only for the others"""
+    if isinstance(a, SymReal) or isinstance(b, SymReal):
+        d = z3.simplify(lift(a) - lift(b))
+        if z3.is_rational_value(d) and d.numerator_as_long() == 0:
+            return True
+    return band_close(a, b)
+
+
+def resolution_ok(res, exp):  # registry_common.resolution_ok with the fast path above
+    if exp is None:
+        return res[0] == "raise" and type(res[1]).__name__ in ("UnitParseError", "SymbolNotFoundError")
+    if res[0] != "ok":
+        return False
+    u = getattr(res[1], "units", res[1])
+    return And(close(u.base_value, exp[0]), dims_equal(u.dimensions, exp[1]))
+
+
+class P12(Probe):
+    """a probe whose circumstances also follow edits of a stand-alone symbol spelled like one of its prefixed factors"""
+
+    def atoms(self):
+        return {s for _, s, _ in self.text} | {p + s for p, s, _ in self.text if p}
+
+
+class Model12(Model):
+    """reference model with the documented lookup order: the whole string as a symbol first, then SI prefix + prefixable symbol"""
+
+    def atom(self, prefix, sym):
+        if prefix and (prefix + sym) in self.t:
+            row = self.t[prefix + sym]
+            return row[0], row[1]
+        return Model.atom(self, prefix, sym)
+
+    def flag(self, prefix, sym):
+        """the 'prefixable' entry of the row the registry reports for prefix+sym (derived rows are not prefixable)"""
+        if prefix and (prefix + sym) in self.t:
+            return self.t[prefix + sym][3]
+        return False if prefix else self.t[sym][3]
+
+    def copy(self):
+        return Model12(self.t, self.tags)
+
+
+PROBES = [P12(p.kind, p.string, p.net, p.text) for p in probes()]
+NEW_PROBES = [P12("new_atom", NEW, [("", NEW, 1)]), P12("new_prefixed", "k" + NEW, [("k", NEW, 1)]),
+              P12("new_compound", f"{NEW}*{BAR}", [("", NEW, 1), ("", BAR, 1)])]
+PK = {p.kind: p for p in PROBES + NEW_PROBES}
+ARITH = P12("arith", FOO, [("", FOO, 1), ("", BAR, 1)])
+KRATIO = P12("k-per-atom", FOO, [], text=[("k", FOO, 1), ("", FOO, -1)])
+KMUL = P12("k-times-bar", f"k{FOO}*{BAR}", [("k", FOO, 1), ("", BAR, 1)])
+KDIV = P12("k-per-bar", f"k{FOO}/{BAR}", [("k", FOO, 1), ("", BAR, -1)])
+PK["prefixed_M"] = P12("prefixed_M", "M" + FOO, [("M", FOO, 1)])  # asked about, not part of the probe rounds
+ASK_TARGET = {"ask_item": [("item", "k", FOO, "prefixed_k"), ("item", "", FOO, "atom"), ("item", "m", FOO, "prefixed_m")],
+              "ask_in": [("in", "k", FOO, "prefixed_k"), ("in", "M", FOO, "prefixed_M"), ("in", "", FOO, "atom")],
+              "ask_new": [("in", "k", NEW, "new_prefixed"), ("item", "", NEW, "new_atom"), ("item", "k", NEW, "new_prefixed")]}
+MK = {"mk_atom": "atom", "mk_pref": "prefixed_k", "mk_comp": "compound", "mk_new": "new_atom", "mk_knew": "new_prefixed",
+      "mk_cnew": "new_compound"}
+ATOMIC_STRINGS = (FOO, "k" + FOO, "m" + FOO)
+BY_STRING = {p.string: p for p in PROBES + NEW_PROBES + [KMUL, KDIV]}
 
 
 class World:
     """one live registry + its reference model + the descriptive log"""
 
-    def __init__(self, ctx):
+    def __init__(self, ctx, probe_set=None):
         self.ctx = ctx
+        self.probes = PROBES if probe_set is None else probe_set
         self.unyt = ctx.mods["unyt"]
         self.D = self.unyt.dimensions
         self.reg = ctx.registry([])
@@ -68,13 +182,16 @@ class World:
         # the real public add(): exercised with symbolic scales through the A2 float shim
         self.reg.add(FOO, s0, self.D.length, prefixable=True)
         self.reg.add(BAR, b0, self.D.time)
-        self.model = Model()
+        self.model = Model12()
         self.model.add(FOO, s0, self.D.length, 0.0, True, tag="s0")
         self.model.add(BAR, b0, self.D.time, 0.0, False, tag="b0")
-        self.log = Log([FOO, BAR])
+        self.log = Log([FOO, BAR, KFOO, NEW])
         self.old = []
+        self.oldq = []  # quantities made earlier: (quantity, payload term, unit scale term, dims, string)
         self.hist = []
+        self.last_edit = "init"  # the last operation that changed the contents (names the circumstances of a stale memo)
         self.mc = mc_stats(ctx)
+        self.snaps = [self.user_rows()]  # the non-default rows of the table after every step (index = number of steps taken)
         self.seen_state()
 
     def seen_state(self):
@@ -99,23 +216,55 @@ class World:
                                                                   expected="unknown symbol" if exp is None else f"{exp[0]!r} {exp[1]}"))
         ctx.observe(label, obs_value(res))
         if res[0] == "ok":
-            u = getattr(res[1], "units", res[1])
-            self.old.append((u, u.base_value, u.dimensions, probe.string))
+            self.remember(res[1], probe.string)
         return res, exp, label
+
+    def remember(self, obj, string):
+        u = getattr(obj, "units", obj)
+        self.old.append((u, u.base_value, u.dimensions, string))
+        if u is not obj:
+            self.oldq.append((obj, payload(obj)[0], u.base_value, u.dimensions, string))
 
     def probe_round(self, cold=True):
         got = {}
-        for p in PROBES:
+        for p in self.probes:
             got[p.kind] = self.construct(p)[0]
         # what a user sees of a prefix: 1 kxfoo is 1000 xfoo whatever the current scale of xfoo (a quotient of two symbolic
         # scales: decided by the solver, not by term rewriting). Through the real Unit.get_conversion_factor.
         a, k = got["atom"], got["prefixed_k"]
-        if a[0] == "ok" and k[0] == "ok" and self.model.atom("k", FOO) is not None:
+        if a[0] == "ok" and k[0] == "ok" and self.model.atom("k", FOO) is not None and KFOO not in self.model.t:
             r = call(k[1].get_conversion_factor, a[1])
             req(self.ctx, self.log.label(KRATIO), r[0] == "ok" and close(r[1][0], 1000.0),
                 lambda: self.info(what="Unit('kxfoo').get_conversion_factor(Unit('xfoo'))", got=str(r[1]), expected="1000"))
+        self.table_round()
         if cold:
             self.cold_differential()
+
+    def user_rows(self):
+        from unyt._unit_lookup_table import default_unit_symbol_lut
+        return {k: self.reg.lut[k] for k in self.reg.keys() if k not in default_unit_symbol_lut}
+
+    def row_ok(self, key, row):
+        """a row the registry lists under `key` is implied by the model: a symbol of the model with its current scale and
+        dimensions, or (tolerated: a memo) SI prefix + prefixable symbol of the model with prefix * CURRENT scale"""
+        m = self.model
+        if key in m.t:
+            return And(close(row[0], m.t[key][0]), dims_equal(row[1], m.t[key][1]), bool(row[4]) == bool(m.t[key][3]))
+        for p in PREFIX:
+            if p and key.startswith(p) and key[len(p):] in m.t and m.t[key[len(p):]][3]:
+                base = m.t[key[len(p):]]
+                return And(close(row[0], base[0] * PREFIX[p]), dims_equal(row[1], base[1]))
+        return False
+
+    def table_round(self):
+        """what the registry lists (keys(): the public view of its contents) is what the model holds: no symbol missing, no
+        row that the current contents do not imply (a derived row left behind by an earlier request is stale after an edit)"""
+        rows = self.user_rows()
+        ok = all(k in rows for k in self.model.t)
+        for k, row in sorted(rows.items()):
+            ok = And(ok, self.row_ok(k, row))
+        req(self.ctx, "table/rows-implied-by-contents", ok,
+            lambda: self.info(listed={k: (repr(v[0]), str(v[1])) for k, v in rows.items()}, model=sorted(self.model.t)))
 
     def cold_differential(self):
         """the property's own wording: 'exactly as if it had been built against a fresh registry with those contents'"""
@@ -123,7 +272,7 @@ class World:
         fresh = ctx.registry([])
         for sym, (scale, dims, off, pref) in self.model.t.items():
             fresh.add(sym, scale, dims, prefixable=pref)
-        for p in PROBES:
+        for p in self.probes:
             ref = call(self.unyt.Unit, p.string, registry=fresh)
             exp = self.model.eval(p.net)
             # the reference model must be what the real code answers on a cold registry holding the same rows: this
@@ -149,6 +298,7 @@ class World:
         if self.mc is not None:
             self.mc["transitions"] += 1
         present = FOO in model.t
+        key0 = model.key()
         if op == "add_foo":
             v = ctx.real(f"v{i}", pos=True)
             res = call(reg.add, FOO, v, D.mass, prefixable=True)
@@ -189,12 +339,8 @@ class World:
             self.outcome(op, res, None)
             model.modify(BAR, v, tag=f"v{i}")
             self.log.edit(BAR, "modify")
-        elif op == "mk_atom":
-            self.construct(PK["atom"])
-        elif op == "mk_pref":
-            self.construct(PK["prefixed_k"])
-        elif op == "mk_comp":
-            self.construct(PK["compound"])
+        elif op in MK:
+            self.construct(PK[MK[op]])
         elif op == "arr_create":
             x = ctx.real(f"x{i}")
             p = PK["compound_prefixed"]
@@ -236,16 +382,254 @@ class World:
                     ctx.observe("op:arith", payload(res[1])[0])
             req(ctx, f"op:arith/{circ}", ok, lambda: self.info(expected="unknown symbol" if exp is None else f"SI x*y*{exp[0]!r}",
                                                                got=type(res[1]).__name__ if res[0] == "raise" else str(res[1])))
+        elif op in ("add_kfoo", "add_new"):
+            sym, dims, pref = (KFOO, D.time, False) if op == "add_kfoo" else (NEW, D.mass, True)
+            was = sym in model.t
+            v = ctx.real(f"v{i}", pos=True)
+            res = call(reg.add, sym, v, dims, prefixable=pref)
+            self.outcome(op, res, None)
+            model.add(sym, v, dims, 0.0, pref, tag=f"v{i}")
+            self.log.edit(sym, "readd" if was else "add")
+        elif op in ("mod_kfoo_f", "mod_new_f"):
+            # modify() knows table rows only: a spelling that merely PARSES as prefix + symbol is not a row
+            sym = KFOO if op == "mod_kfoo_f" else NEW
+            was = sym in model.t
+            v = ctx.real(f"v{i}", pos=True)
+            res = call(reg.modify, sym, v)
+            self.outcome(op, res, None if was else "SymbolNotFoundError")
+            if was:
+                model.modify(sym, v, tag=f"v{i}")
+                self.log.edit(sym, "modify")
+        elif op in ("rm_kfoo", "rm_new"):
+            sym = KFOO if op == "rm_kfoo" else NEW
+            was = sym in model.t
+            res = call(reg.remove, sym)
+            self.outcome(op, res, None if was else "SymbolNotFoundError")
+            if was:
+                model.remove(sym)
+                self.log.edit(sym, "remove")
+        elif op in ("def_kfoo", "def_new"):
+            # define_unit refuses every spelling that already resolves (as a symbol or as prefix + prefixable symbol)
+            sym, unit, dims, k, pref = (KFOO, "s", D.time, 1.0, False) if op == "def_kfoo" else (NEW, "g", D.mass, 1.0e-3, True)
+            known = model.atom("k", FOO) is not None if sym == KFOO else sym in model.t
+            v = ctx.real(f"v{i}", pos=True)
+            res = call(self.unyt.define_unit, sym, (v, unit), prefixable=pref, registry=reg)
+            self.outcome(op, res, "RuntimeError" if known else None)
+            if not known:
+                model.add(sym, v * k, dims, 0.0, pref, tag=f"v{i}{unit}")
+                self.log.edit(sym, "add")
+        elif op in ASK_TARGET:
+            for target in ASK_TARGET[op]:
+                self.ask(*target)
+        elif op == "ask_prod":
+            self.ask_product(i, "mul")
+            k = model.atom("k", FOO)
+            if k is None or k[1] is not D.time:  # kxfoo/xbar with a stand-alone kxfoo (a time) cancels: concrete scales only
+                self.ask_product(i, "div")
+        elif op == "ask_latex":
+            self.ask_latex()
+        elif op == "ask_lists":
+            self.ask_lists()
+        elif op == "ask_sysid":
+            self.ask_sysid()
+        elif op == "old_copy":
+            self.old_copies()
+        elif op == "old_arith":
+            self.old_arith(i)
         else:
             raise KeyError(op)
         if self.mc is not None:
             self.mc["impl_calls"] += 1
+        if self.model.key() != key0:
+            self.last_edit = op
+        self.snaps.append(self.user_rows())
         self.seen_state()
 
+    # ---------------------------------------------------------------- the registry asked by other means than Unit(string)
+    def ask(self, kind, prefix, sym, probe_kind):
+        """reg[string] / string in reg: answered from the current contents (and, being reads, they must leave nothing behind
+        that outlives a later edit: that is seen by every later observation and by table_round)"""
+        probe, string = PK[probe_kind], prefix + sym
+        exp = self.model.atom(prefix, sym)
+        circ = self.log.circumstances(probe)
+        if kind == "item":
+            res = call(lambda: self.reg[string])
+            if exp is None:
+                ok = res[0] == "raise" and type(res[1]).__name__ == "SymbolNotFoundError"
+            else:
+                ok = res[0] == "ok" and And(close(res[1][0], exp[0]), dims_equal(res[1][1], exp[1]),
+                                            bool(res[1][4]) == bool(self.model.flag(prefix, sym)))
+            if res[0] == "ok":
+                self.ctx.observe(f"ask:item:{string}", res[1][0])
+        else:
+            res = call(lambda: string in self.reg)
+            ok = res[0] == "ok" and res[1] is (exp is not None)
+            self.ctx.observe(f"ask:in:{string}", str(res[1]))
+        self.log.request(string, probe.text)
+        req(self.ctx, f"ask:{kind}:{probe.kind}/{circ}", ok,
+            lambda: self.info(asked=f"reg[{string!r}]" if kind == "item" else f"{string!r} in reg",
+                              got=type(res[1]).__name__ if res[0] == "raise" else str(res[1]),
+                              expected="unknown symbol" if exp is None else f"{exp[0]!r} {exp[1]}"))
 
-def make_case(family, prefix, nmax, alphabet, every, cold):
+    def ask_product(self, i, op):
+        """x kxfoo * y xbar and x kxfoo / y xbar: the unit rules go through Unit.simplify, which asks the registry object
+        for every factor (no factor pair cancels: xfoo is a length or a mass, xbar a time)"""
+        ctx = self.ctx
+        probe = KMUL if op == "mul" else KDIV
+        x, y = ctx.real(f"x{i}{op[0]}"), ctx.real(f"y{i}{op[0]}", nonzero=True)
+        exp = self.model.eval(probe.net)
+        circ = self.log.circumstances(PK["prefixed_k"])
+        if op == "mul":
+            res = call(lambda: ctx.quantity(x, "k" + FOO, self.reg) * ctx.quantity(y, BAR, self.reg))
+            val = x * y
+        else:
+            res = call(lambda: ctx.quantity(x, "k" + FOO, self.reg) / ctx.quantity(y, BAR, self.reg))
+            val = x / y
+        self.log.request("k" + FOO, PK["prefixed_k"].text)
+        self.log.request(BAR, PK["atom2"].text)
+        if exp is None:
+            ok = res[0] == "raise" and type(res[1]).__name__ == "UnitParseError"
+        else:
+            ok = res[0] == "ok" and And(close(payload(res[1])[0] * res[1].units.base_value, val * exp[0]),
+                                        dims_equal(res[1].units.dimensions, exp[1]))
+            if res[0] == "ok":
+                ctx.observe(f"ask:{op}", payload(res[1])[0])
+                self.remember(res[1], probe.string)
+        req(ctx, f"ask:{op}/{circ}", ok, lambda: self.info(expected="unknown symbol" if exp is None else f"SI value*{exp[0]!r}",
+                                                          got=type(res[1]).__name__ if res[0] == "raise" else str(res[1])))
+
+    def ask_latex(self):
+        """LaTeX of a compound with a prefixed factor is assembled from registry[...] rows at first use"""
+        exp = self.model.eval(KMUL.net)
+        circ = self.log.circumstances(KMUL)
+        res = call(lambda: self.unyt.Unit(KMUL.string, registry=self.reg).latex_repr)
+        self.log.request(KMUL.string, KMUL.text)
+        if exp is None:
+            ok = res[0] == "raise" and type(res[1]).__name__ == "UnitParseError"
+        else:
+            ok = res[0] == "ok" and r"\rm{k%s}" % FOO in res[1] and r"\rm{%s}" % BAR in res[1]
+        req(self.ctx, f"ask:latex/{circ}", ok, lambda: self.info(got=type(res[1]).__name__ if res[0] == "raise" else res[1]))
+        self.ctx.observe("ask:latex", str(res[1]) if res[0] == "ok" else type(res[1]).__name__)
+
+    def ask_lists(self):
+        """keys / prefixable_units / list_same_dimensions: the user part of each listing is what the model holds"""
+        reg, m = self.reg, self.model
+        rows = self.user_rows()
+        pre = sorted(k for k in reg.prefixable_units if k in rows)
+        ok = pre == sorted(k for k in m.t if m.t[k][3])
+        for dims in (self.D.length, self.D.mass, self.D.time):
+            base = {id(self.D.length): "m", id(self.D.mass): "kg", id(self.D.time): "s"}[id(dims)]
+            same = call(lambda: reg.list_same_dimensions(self.unyt.Unit(base, registry=reg)))
+            listed = sorted(k for k in same[1] if k in rows) if same[0] == "ok" else None
+            ok = ok and listed == sorted(k for k in rows if dims_equal(rows[k][1], dims))
+            ok = ok and all(k in listed for k in m.t if dims_equal(m.t[k][1], dims))
+        req(self.ctx, "ask:lists", ok, lambda: self.info(prefixable=pre, model=sorted(m.t)))
+        self.table_round()
+
+    def ask_sysid(self):
+        """unit_system_id is memoised on the registry and enters Unit.__hash__: it must be the id of a fresh registry holding
+        the same table (the memo is reset by every edit). The id is a digest (md5 of the printed table): when it differs from
+        the fresh one it is looked up among the digests of the EARLIER tables of this history, and the solver is asked whether
+        that earlier table can differ from the current one (a stale memo is harmless exactly when the edit stored equal values)"""
+        UR = self.ctx.mods["UR"]
+
+        def fresh_id(user):
+            lut = {k: v for k, v in self.reg.lut.items() if k not in now}
+            lut.update(user)
+            return UR.UnitRegistry(lut=lut, add_default_symbols=False).unit_system_id
+
+        now = self.user_rows()
+        live = call(lambda: self.reg.unit_system_id)
+        cold = call(fresh_id, now)
+        ok = live[0] == "ok" and live == cold
+        stale = None
+        if not ok and live[0] == "ok":
+            for k in range(len(self.snaps) - 1, -1, -1):
+                if call(fresh_id, self.snaps[k]) == live:
+                    stale = k
+                    ok = self.same_rows(self.snaps[k], now)
+                    break
+        req(self.ctx, f"ask:sysid/after-{self.last_edit}", ok,
+            lambda: self.info(live=str(live[1]), fresh=str(cold[1]),
+                              stale="the id of no table of this history" if stale is None else f"the id of the table after step {stale}"))
+
+    @staticmethod
+    def same_rows(a, b):
+        if sorted(a) != sorted(b):
+            return False
+        ok = True
+        for k in a:
+            ok = And(ok, exact_eq(a[k][0], b[k][0]), dims_equal(a[k][1], b[k][1]), exact_eq(a[k][2], b[k][2]), a[k][3:] == b[k][3:])
+        return ok
+
+    # ---------------------------------------------------------------- units made earlier are used again
+    def old_copies(self):
+        """every copy route of every unit / quantity made earlier in this history: (a) the copy has the term the original
+        had when it was made (whatever the registry says now); (b) a copy leaves nothing in the registry's memo layers: the
+        strings are requested again right after the copies (and by all later observations) and follow the CURRENT contents;
+        then the copies are repeated with the string memo warm (a copy must not be answered from it either)"""
+        ctx = self.ctx
+        units, quantities = list(self.old), list(self.oldq)
+        n = 0
+        for phase in ("cold", "warm"):
+            ok = True
+            for u, bv, dims, s in units:
+                for r in (lambda: u.copy(), lambda: copy.copy(u), lambda: copy.deepcopy(u), lambda: u.copy(deep=True)):
+                    res = call(r)
+                    n += 1
+                    ok = And(ok, res[0] == "ok" and And(exact_eq(res[1].base_value, bv), dims_equal(res[1].dimensions, dims),
+                                                        str(res[1].expr) == str(u.expr)))
+                    if res[0] == "ok":
+                        self.old.append((res[1], bv, dims, s))
+            for q, x, bv, dims, s in quantities:
+                for r in (lambda: q.copy(), lambda: copy.copy(q), lambda: q.units.copy(), lambda: copy.deepcopy(q)):
+                    res = call(r)
+                    n += 1
+                    good = res[0] == "ok"
+                    if good:
+                        c = res[1]
+                        cu = getattr(c, "units", c)
+                        good = And(exact_eq(cu.base_value, bv), dims_equal(cu.dimensions, dims))
+                        if cu is not c:
+                            good = And(good, exact_eq(payload(c)[0], x))
+                        self.old.append((cu, bv, dims, s))
+                    ok = And(ok, good)
+            req(ctx, f"op:old_copy/copy-keeps-old-term/{phase}", ok, lambda: self.info(copies=n))
+            if phase == "cold":
+                for s in sorted({s for _, _, _, s in units}):
+                    self.construct(BY_STRING[s])
+        ctx.observe("op:old_copy/n", n)
+
+    def old_arith(self, i):
+        """arithmetic with units / quantities made earlier: their own term enters the result, not the registry's current one"""
+        ctx, reg = self.ctx, self.reg
+        ok, n = True, 0
+        for u, bv, dims, s in list(self.old):
+            if s not in ATOMIC_STRINGS:
+                continue
+            n += 1
+            res = call(lambda: (u * self.unyt.Unit("hr", registry=reg), u ** 2))
+            ok = And(ok, res[0] == "ok" and And(close(res[1][0].base_value, bv * 3600.0), close(res[1][1].base_value, bv * bv),
+                                                dims_equal(res[1][0].dimensions, dims * self.D.time)))
+        y = ctx.real(f"y{i}")
+        for q, x, bv, dims, s in list(self.oldq):
+            if s not in ATOMIC_STRINGS:
+                continue
+            n += 1
+            res = call(lambda: q * ctx.quantity(y, "hr", reg))
+            if res[0] == "ok":
+                ok = And(ok, close(payload(res[1])[0] * res[1].units.base_value, x * y * bv * 3600.0),
+                         dims_equal(res[1].units.dimensions, dims * self.D.time))
+            else:
+                # the unit rule re-reads every factor from the registry (Unit.simplify): a symbol that is gone is refused
+                ok = And(ok, FOO not in self.model.t and type(res[1]).__name__ == "SymbolNotFoundError")
+        req(ctx, "op:old_arith/old-term-enters-result", ok, lambda: self.info(operands=n))
+        ctx.observe("op:old_arith/n", n)
+
+
+def make_case(family, prefix, nmax, alphabet, every, cold, probe_set=None):
     def h(ctx):
-        w = World(ctx)
+        w = World(ctx, probe_set)
         for i in range(nmax):
             if i < len(prefix):
                 op = prefix[i]
@@ -270,21 +654,35 @@ def make_case(family, prefix, nmax, alphabet, every, cold):
                 budget_s=3000, max_paths=200000, weight=n_ext)
 
 
-def family(name, alphabet, nmax, g, every, cold=True):
+def family(name, alphabet, nmax, g, every, cold=True, probe_set=None):
     out = []
     for k in range(0, g):  # histories shorter than the grouping prefix: one case each
         for pre in itertools.product(alphabet, repeat=k):
-            out.append(make_case(name, pre, k, alphabet, every, cold))
+            out.append(make_case(name, pre, k, alphabet, every, cold, probe_set))
     for pre in itertools.product(alphabet, repeat=g):
-        out.append(make_case(name, pre, nmax, alphabet, every, cold))
+        out.append(make_case(name, pre, nmax, alphabet, every, cold, probe_set))
     return out
 
 
 def cases(tier, mods):
-    check_names(mods, NAMES)
+    check_names(mods, NAMES + [KFOO])
+    allp = PROBES + NEW_PROBES
     if tier == "quick":
-        return family("end", OPS, 3, 1, every=False) + family("every", EDITS, 3, 1, every=True)
-    return family("end", OPS, 4, 1, every=False) + family("every", EDITS, 4, 1, every=True)
+        # the widest family is cut into cases by its first TWO operations (21 histories each): a case stays far below the
+        # runner's hard wall limit per case on a loaded machine, and the workers are evenly loaded
+        return (family("end", WIDE, 3, 2, every=False) + family("every", EDITS, 3, 1, every=True)
+                + family("shadow", SHADOW, 3, 1, every=False, probe_set=allp)
+                + family("shadow-every", SHADOW_EVERY, 3, 1, every=True, probe_set=allp)
+                + family("fresh", FRESH, 3, 1, every=False, probe_set=allp))
+    # thorough: the round-1 alphabet one step deeper; the widened alphabet to length 3; reduced alphabets around the new
+    # regions (asks / copies, shadowing symbol) to length 4
+    return (family("deep", OPS, 4, 2, every=False) + family("every", EDITS, 4, 1, every=True)
+            + family("end", WIDE, 3, 2, every=False)
+            + family("ask-deep", EDITS + ASKS + ["old_copy"], 4, 2, every=False)
+            + family("shadow", SHADOW, 3, 1, every=False, probe_set=allp)
+            + family("shadow-deep", [o for o in SHADOW if o not in ("def_kfoo", "convert", "arr_create")], 4, 2, every=False, probe_set=allp)
+            + family("shadow-every", SHADOW_EVERY, 3, 1, every=True, probe_set=allp)
+            + family("fresh", FRESH, 3, 1, every=False, probe_set=allp))
 
 
 CONFORM = {"quick": 20, "thorough": 60}
